@@ -474,7 +474,7 @@ def render(fn, twin=False, subst=None, ann_params=None, decl=None):
                     inner = "%s(%r, %s, LATEST)" % (subst[1], s[1], inner)
                 if twin:
                     inner = "BL(%r, %s)" % (s[1], inner)
-                lines.append("%sO[(%s := %s)] = %s" % (ind, s[1], inner, s[3]))
+                lines.append("%sO[(%s := %s)] %s %s" % (ind, s[1], inner, "+=" if len(s) > 4 and s[4] == "aug" else "=", s[3]))
             elif k == "aug":
                 lines.append("%s%s %s= %s" % (ind, target_text(s[1]), s[2], s[3]))
                 lines.extend(post_bind(target_names(s[1]), ind))
